@@ -37,6 +37,34 @@ impl VaultFlags {
             r.is_some() ==> r.unwrap().b == x,
     { if x & !0x3ff == 0 { Some(VaultFlags { b: x }) } else { None } }
     pub open spec fn wf(self) -> bool { (self.b & !VAULT_FLAGS_ALL) == 0 }
+    /// bitflags 2.x generated API (set operations on the bits)
+    pub fn insert(&mut self, other: VaultFlags)
+        ensures final(self).b == old(self).b | other.b,
+    { self.b = self.b | other.b; }
+    pub fn remove(&mut self, other: VaultFlags)
+        ensures final(self).b == old(self).b & !other.b,
+    { self.b = self.b & !other.b; }
+    pub fn toggle(&mut self, other: VaultFlags)
+        ensures final(self).b == old(self).b ^ other.b,
+    { self.b = self.b ^ other.b; }
+    pub fn set(&mut self, other: VaultFlags, value: bool)
+        ensures final(self).b == (if value { old(self).b | other.b } else { old(self).b & !other.b }),
+    { if value { self.b = self.b | other.b; } else { self.b = self.b & !other.b; } }
+    pub fn contains(&self, other: VaultFlags) -> (r: bool)
+        ensures r == ((self.b & other.b) == other.b),
+    { (self.b & other.b) == other.b }
+    pub fn intersects(&self, other: VaultFlags) -> (r: bool)
+        ensures r == ((self.b & other.b) != 0),
+    { (self.b & other.b) != 0 }
+    pub fn union(self, other: VaultFlags) -> (r: VaultFlags)
+        ensures r.b == self.b | other.b,
+    { VaultFlags { b: self.b | other.b } }
+    pub fn empty() -> (r: VaultFlags)
+        ensures r.b == 0,
+    { VaultFlags { b: 0 } }
+    pub fn is_empty(&self) -> (r: bool)
+        ensures r == (self.b == 0),
+    { self.b == 0 }
 }
 
 // ---- time crate (0.3, default range: years -9999..=9999) ---------------------
